@@ -26,6 +26,8 @@ type svcPkg struct {
 	Auther      []stubMethod
 	Types       []string
 	HasHTTP     bool
+	HasGRPC     bool
+	GRPCReg     string            // name of the pb.Register<Svc>Server function
 	Imports     map[string]string // alias -> path, for selector expressions in signatures
 }
 
@@ -167,6 +169,16 @@ func scanServices(r *Run) ([]*svcPkg, error) {
 		if _, err := os.Stat(filepath.Join(r.Dir, "gen", "http", e.Name(), "server", "server.go")); err == nil {
 			sp.HasHTTP = true
 		}
+		if _, err := os.Stat(filepath.Join(r.Dir, "gen", "grpc", e.Name(), "server", "server.go")); err == nil {
+			if files, _ := filepath.Glob(filepath.Join(r.Dir, "gen", "grpc", e.Name(), "pb", "*_grpc.pb.go")); len(files) > 0 {
+				if src, err := os.ReadFile(files[0]); err == nil {
+					if mm := regexp.MustCompile(`(?m)^func (Register\w+Server)\(`).FindSubmatch(src); mm != nil {
+						sp.HasGRPC = true
+						sp.GRPCReg = string(mm[1])
+					}
+				}
+			}
+		}
 		sort.Strings(sp.Types)
 		out = append(out, sp)
 	}
@@ -187,6 +199,11 @@ func (s *Session) WriteGlue(r *Run) error {
 		if sp.HasHTTP {
 			fmt.Fprintf(&b, "\t%sserver %q\n", sp.Alias, r.Pkg+"/gen/http/"+sp.Dir+"/server")
 			fmt.Fprintf(&b, "\t%sclient %q\n", sp.Alias, r.Pkg+"/gen/http/"+sp.Dir+"/client")
+		}
+		if sp.HasGRPC {
+			fmt.Fprintf(&b, "\t%sgserver %q\n", sp.Alias, r.Pkg+"/gen/grpc/"+sp.Dir+"/server")
+			fmt.Fprintf(&b, "\t%sgclient %q\n", sp.Alias, r.Pkg+"/gen/grpc/"+sp.Dir+"/client")
+			fmt.Fprintf(&b, "\t%spb %q\n", sp.Alias, r.Pkg+"/gen/grpc/"+sp.Dir+"/pb")
 		}
 		// imports referenced by signatures
 		for _, ms := range [][]stubMethod{sp.Methods, sp.Auther} {
@@ -227,6 +244,9 @@ func (s *Session) WriteGlue(r *Run) error {
 		fmt.Fprintf(&b, "\th.Register(harness.ServiceDef{\n\t\tName: %q,\n\t\tServiceType: reflect.TypeOf((*%s.Service)(nil)).Elem(),\n\t\tNewStub: func(h *harness.H) any { return &stub%s{h} },\n\t\tNewEndpoints: %s.NewEndpoints,\n", sp.ServiceName, sp.Alias, sp.Alias, sp.Alias)
 		if sp.HasHTTP {
 			fmt.Fprintf(&b, "\t\tNewServer: %sserver.New,\n\t\tMount: %sserver.Mount,\n\t\tNewClient: %sclient.NewClient,\n", sp.Alias, sp.Alias, sp.Alias)
+		}
+		if sp.HasGRPC {
+			fmt.Fprintf(&b, "\t\tGRPCNewServer: %sgserver.New,\n\t\tGRPCRegister: %spb.%s,\n\t\tGRPCNewClient: %sgclient.NewClient,\n", sp.Alias, sp.Alias, sp.GRPCReg, sp.Alias)
 		}
 		b.WriteString("\t\tTypes: map[string]reflect.Type{\n")
 		for _, t := range sp.Types {
